@@ -178,7 +178,8 @@ package server
 // Writing the index entries of a record makes exactly its declared entries present.
 //
 //@ func writeSecondaryIndexes
-//@ property C15
+//@ property C15 C13
+//@ errorsfrom Put
 //@ requires batch != nil && forall i int :: 0 <= i && i < len(secondaryIndexes) ==> secondaryIndexes[i] != nil
 //@ loop 0 modifies ghset(present, batch), ghset(deleted, batch)
 //@ loop 0 invariant forall k string :: ghset(present, batch, k) <==> (old(ghset(present, batch, k)) || exists i int :: 0 <= i && i <= rangeindex && k == idxKey(primaryKey, secondaryIndexes[i].IndexName, secondaryIndexes[i].SecondaryKey))
@@ -188,7 +189,8 @@ package server
 // Deleting the index entries of a record removes exactly the entries it declared.
 //
 //@ func deleteSecondaryIndexes
-//@ property C15
+//@ property C15 C13
+//@ errorsfrom Delete
 //@ requires batch != nil && existingEntry != nil && forall i int :: 0 <= i && i < len(existingEntry.SecondaryIndexes) ==> existingEntry.SecondaryIndexes[i] != nil
 //@ loop 0 modifies ghset(present, batch), ghset(deleted, batch)
 //@ loop 0 invariant forall k string :: ghset(present, batch, k) <==> (old(ghset(present, batch, k)) && !exists i int :: 0 <= i && i <= rangeindex && k == idxKey(primaryKey, existingEntry.SecondaryIndexes[i].IndexName, existingEntry.SecondaryIndexes[i].SecondaryKey))
@@ -199,7 +201,8 @@ package server
 // version are present afterwards (an entry declared by both stays present).
 //
 //@ func secondaryIndexesUpdateCallbackS.OnPut(recv, batch, request, existingEntry) (status, err)
-//@ property C15
+//@ errorsfrom Put, Delete
+//@ property C15 C13
 //@ requires batch != nil && request != nil && forall i int :: 0 <= i && i < len(request.SecondaryIndexes) ==> request.SecondaryIndexes[i] != nil
 //@ requires existingEntry != nil ==> forall i int :: 0 <= i && i < len(existingEntry.SecondaryIndexes) ==> existingEntry.SecondaryIndexes[i] != nil
 //@ ensures err == nil ==> forall k string :: ghset(present, batch, k) <==> ((exists i int :: 0 <= i && i < len(request.SecondaryIndexes) && k == idxKey(request.Key, request.SecondaryIndexes[i].IndexName, request.SecondaryIndexes[i].SecondaryKey)) || (old(ghset(present, batch, k)) && !(existingEntry != nil && exists j int :: 0 <= j && j < len(existingEntry.SecondaryIndexes) && k == idxKey(request.Key, existingEntry.SecondaryIndexes[j].IndexName, existingEntry.SecondaryIndexes[j].SecondaryKey))))
@@ -675,7 +678,8 @@ package server
 // (its own timeout), never one shared with another session.
 //
 //@ func sessionManager.readSessions(sm) (result, err)
-//@ property C14
+//@ property C14 C13
+//@ errorsfrom ListBlock, Get
 //@ requires sm.leaderController != nil && sm.leaderController.db != nil && sm.log != nil
 //@ loop 0 modifies mapof(result), fresh
 //@ loop 0 invariant result != nil && fresh(result)
